@@ -204,11 +204,15 @@ Theorem C03_wildcard_conservative : forall c r, no_wildcards c -> route_w false 
 Proof. exact route_w_conservative. Qed.
 Print Assumptions C03_wildcard_conservative.
 
-(* C03 with wildcard hosts at full strength is FALSE of the faithful model and of the code: on a
-   wildcard host Exact /app/sub loses to Prefix /app (longer regex); also Prefix /app answers
-   /appx, Prefix /app/ does not answer /app, Begin is case sensitive (harness keys
-   C03/wildcard-regex-length-precedence, -prefix-not-on-element-boundary, -prefix-trailing-slash,
-   -begin-case-sensitive; all replayed on the real pipeline). *)
+(* The Prefix / Exact / Begin reading of the DECLARED path types (spec_target_w) is not what a
+   wildcard host gets, and that is documented (docs, Path type: "Wildcard hostnames and
+   alias-regex match incoming requests using the regex path type, even if the path itself has a
+   distinct one"; regex = case sensitive, implicit start, no ending boundary; "HAProxy Ingress
+   doesn't calculate overlapping from regex paths"): on a wildcard host Exact /app/sub loses to
+   Prefix /app (longer regex), Prefix /app answers /appx, Prefix /dir/ needs its slash, Begin is
+   case sensitive. Not a defect: the harness judges wildcard hosts by the regex reading and only
+   counts these situations (evidence buckets documented-wildcard-regex:<which>). The statement
+   with the declared-type reading is therefore refuted ... *)
 Theorem C03_wildcard_full_spec_refuted :
   exists c r, ports_consistent c /\ ~ full_spec_w_for (route_w false c r) c r.
 Proof. exact route_w_full_spec_refuted. Qed.
